@@ -284,11 +284,17 @@ fn fnv(vals: impl Iterator<Item = u64>) -> u64 {
     h
 }
 
-/// `n+K`, `n-K`, `m+K`, `m-K`, `=K`
+/// `n+K`, `n-K`, `m+K`, `m-K`, `=K`, `pK` (= max(1, next-K))
 fn size_spec(s: &str, next: usize, max: usize) -> Option<usize> {
     let (h, t) = s.split_at(1);
     match h {
         "=" => t.parse().ok(),
+        "p" => {
+            // at least one frame: max(1, next - K)
+            let d: i64 = if t.is_empty() { 0 } else { t.parse().ok()? };
+            let v = next as i64 - d;
+            Some(if v < 1 { 1 } else { v as usize })
+        }
         "n" | "m" => {
             let base = if h == "n" { next } else { max } as i64;
             let d: i64 = if t.is_empty() { 0 } else { t.parse().ok()? };
